@@ -306,6 +306,9 @@ def run(ctx):
         celp = render.param_named(wc, ty_contains='cel::RawCel')
         rec = [c for c in q.calls(wc, AF + 'write_cel')]
         ctx.floor('recursive write_cel calls', len(rec), 1)
+        ctx.inst('N', 'write_cel#linked-by-recursion', len(rec) == 1, 'a linked cel is drawn by %d recursive write_cel call(s) on the link target; must be exactly one '
+                 '(drawing the target\'s content with the linking cel\'s own offset/opacity is not "renders exactly like the cel it links to")' % len(rec),
+                 wc.span, key=wc.name + '|N|by-recursion')
         for c in rec:
             at = q.arg_terms(c)
             tgt = at[2]
